@@ -37,7 +37,7 @@ func (r *Rng) genScalar() interface{} {
 
 func (r *Rng) genKey(cfg genCfg) string {
 	if cfg.oddKeys && r.chance(0.08) {
-		return r.pick([]string{"", "a.b", "x[0]", "*", "[", "!k", " id", "name ", " "})
+		return r.pick([]string{"", "a.b", "x[0]", "*", "[", "!k", " id", "name ", " ", "k]", "x]y", "]"})
 	}
 	return r.pick(keyPool)
 }
